@@ -256,3 +256,57 @@ Theorem C10_names_unique_instance : forall o,
   forall a, In a (out_asms o) -> NoDup (map sc_name (oa_scaffolds a)).
 Proof. exact Proofs.UniqueNames.unique_names_example_no_haplotypes. Qed.
 Print Assumptions C10_names_unique_instance.
+
+(* ---- multi-haplotype maps: "the first haplotype decides and homologues
+   grouped with it share the number" *)
+From Tola Require Proofs.MultiHap.
+
+(* a well-interleaved two-haplotype map (for each chromosome its h1 Pretext
+   scaffold with unlocs, then its h2 one) is sorted into exactly one group per
+   chromosome, none flagged as an error *)
+Theorem C10_two_hap_groups : forall fused h1 h2 (pairs : list (Proofs.MultiHap.sub * Proofs.MultiHap.sub)),
+  h1 <> h2 -> pairs <> [] ->
+  Forall (fun p => Proofs.MultiHap.sub_ok fused (fst p) /\ Proofs.MultiHap.sub_ok fused (snd p)) pairs ->
+  exists st,
+    foldM (build_groups_step fused [h1; h2] true)
+          (Proofs.MultiHap.items_of (map (Proofs.MultiHap.chrom2 h1 h2) pairs))
+          (mkCg [new_group [h1; h2]] None None) = Ok st
+    /\ cg_groups st = map (Proofs.MultiHap.chrom2 h1 h2) pairs
+    /\ existsb (group_bad [h1; h2]) (cg_groups st) = false.
+Proof. exact Proofs.MultiHap.two_hap_groups. Qed.
+Print Assumptions C10_two_hap_groups.
+
+(* ... and both homologues of the chromosome at rank k by H1 sequence length
+   (ties in map order), with their unlocs, are named prefix ++ (k+1) (++ the
+   _unloc_ suffix); nothing but names changes *)
+Theorem C10_two_hap_names : forall prefix fused h1 h2 (p0 : Proofs.MultiHap.sub * Proofs.MultiHap.sub) pairs,
+  h1 <> h2 ->
+  Forall (fun p => Proofs.MultiHap.sub_ok fused (fst p) /\ Proofs.MultiHap.sub_ok fused (snd p)) (p0 :: pairs) ->
+  NoDup (map snd (Proofs.MultiHap.items_of (map (Proofs.MultiHap.chrom2 h1 h2) (p0 :: pairs)))) ->
+  exists fused',
+    name_chromosomes prefix fused (Proofs.MultiHap.items_of (map (Proofs.MultiHap.chrom2 h1 h2) (p0 :: pairs))) = Ok fused'
+    /\ Proofs.Naming.upd_ok (map snd (Proofs.MultiHap.items_of (map (Proofs.MultiHap.chrom2 h1 h2) (p0 :: pairs)))) fused fused'
+    /\ forall k p, nth_error (sort_by_Z_desc (fun p => sumZ (map (Proofs.MultiHap.member_len fused) (snd (fst p)))) (p0 :: pairs)) k = Some p ->
+       forall sb i sc sfx, sb = fst p \/ sb = snd p -> In i (snd sb) ->
+         nth_error fused i = Some sc -> sc_name sc = fst sb ++ sfx ->
+         (forall j, (j < length sfx)%nat -> starts_with (fst sb) (skipn j sfx) = false) ->
+         nth_error fused' i = Some (with_name sc (prefix ++ str_of_Z (Z.of_nat k + 1) ++ sfx)).
+Proof. exact Proofs.MultiHap.two_hap_names. Qed.
+Print Assumptions C10_two_hap_names.
+
+(* the first haplotype decides: two runs that differ only in the lengths of
+   scaffolds of the OTHER haplotypes hand out the same names *)
+Theorem C10_first_haplotype_decides : forall prefix fusedA fusedB h0 hs c0 chrs,
+  hs <> [] ->
+  Forall (Proofs.MultiHap.chrom_ok fusedA (h0 :: hs)) (c0 :: chrs) -> Proofs.MultiHap.seps fusedA (c0 :: chrs) ->
+  dedup str_eqb (map fst (Proofs.MultiHap.items_of (c0 :: chrs))) = h0 :: hs ->
+  Forall (Proofs.MultiHap.first_hap_single (h0 :: hs)) (c0 :: chrs) ->
+  Forall2 Proofs.MultiHap.same_labels fusedA fusedB ->
+  (forall i, In (h0, i) (Proofs.MultiHap.items_of (c0 :: chrs)) ->
+             Proofs.MultiHap.member_len fusedB i = Proofs.MultiHap.member_len fusedA i) ->
+  exists fa fb,
+    name_chromosomes prefix fusedA (Proofs.MultiHap.items_of (c0 :: chrs)) = Ok fa
+    /\ name_chromosomes prefix fusedB (Proofs.MultiHap.items_of (c0 :: chrs)) = Ok fb
+    /\ map sc_name fa = map sc_name fb.
+Proof. exact Proofs.MultiHap.first_haplotype_decides. Qed.
+Print Assumptions C10_first_haplotype_decides.
